@@ -32,6 +32,18 @@ theorem bind_generate_FN (ft : Feat) (e : BEnv) (Γ : Ctx) (cfg : SerCfg) (pcfg 
       parseRoot e Γ pcfg c t = .ok (v, 0) :=
   Proofs.C01.roundtrip_FN ft e Γ cfg pcfg c v hΓ hv
 
+/-- **C01, the provable part in one statement** (the full-strength statements `bind_generate_anyInstance`
+of `Props/C01.lean` is false): an instance round-trips when it lies in *some* fragment, F1 with any
+combination of namespaces or a feature-indexed one. -/
+theorem bind_generate_partial (e : BEnv) (Γ : Ctx) (cfg : SerCfg) (pcfg : ParserConfig) (c : ClassId) (v : Val)
+    (h : (ctxF1G false Γ = true ∧ valF1 e Γ c v = true) ∨
+      ∃ ft : Feat, ctxOK ft Γ = true ∧ valOKI ft.inherit e Γ c v = true) :
+    ∃ evs t, generate e Γ cfg v = .ok evs ∧ eventsTree (isDatatype Γ) evs = .ok t ∧
+      parseRoot e Γ pcfg c t = .ok (v, 0) := by
+  rcases h with ⟨hΓ, hv⟩ | ⟨ft, hΓ, hv⟩
+  · exact bind_generate_anyNamespaces e Γ cfg pcfg c v hΓ hv
+  · exact bind_generate_FN ft e Γ cfg pcfg c v hΓ hv
+
 def featF2 : Feat := { nillable := true }
 def featF3 : Feat := { nillable := true, tokens := true }
 def featF4 : Feat := { nillable := true, tokens := true, wrapper := true }
@@ -516,5 +528,30 @@ such values on code and model; the statement about tails is C11's) -/
 def w15 : Val := .obj (s "Root")
   [(s "a", .none), (s "w", .list [.any (some (s "g")) (some []) (some (s "x")) [] []]), (s "z", .list [])]
 example : valOKI true e0 Γ8 (s "Root") w15 = false := by decide
+
+/-! #### positive instances of the smaller fragments -/
+
+/-- F2: `a: Optional[str]` nillable holding `None` (written `<a xsi:nil="true"/>`) -/
+def v2n : Val := .obj (s "Root") [(s "a", .none)]
+example : ctxOK featF2 Γw6 = true ∧ ctxOK {} Γw6 = false ∧ valOK e0 Γw6 (s "Root") v2n = true := by decide
+example : ∃ evs t, generate e0 Γw6 {} v2n = .ok evs ∧ eventsTree (isDatatype Γw6) evs = .ok t ∧
+    parseRoot e0 Γw6 {} (s "Root") t = .ok (v2n, 0) :=
+  bind_generate_F2 e0 Γw6 {} {} (s "Root") v2n (by decide) (by decide)
+example : treeOf Γw6 v2n = .node (s "Root") [] [] none [.node (s "a") [(xsiNil, s "true")] [] none [] none] none := rfl
+
+/-- F3: a nillable class whose text is a token list, `Root(c=[Leaf(v=[1, 2])])` -/
+def v3t : Val := .obj (s "Root") [(s "c", .list [.obj (s "Leaf") [(s "v", .list [.prim (.int 1), .prim (.int 2)])]])]
+example : ctxOK featF3 Γw8 = true ∧ ctxOK featF2 Γw8 = false ∧ valOK e0 Γw8 (s "Root") v3t = true := by decide
+example : ∃ evs t, generate e0 Γw8 {} v3t = .ok evs ∧ eventsTree (isDatatype Γw8) evs = .ok t ∧
+    parseRoot e0 Γw8 {} (s "Root") t = .ok (v3t, 0) :=
+  bind_generate_F3 e0 Γw8 {} {} (s "Root") v3t (by decide) (by decide)
+
+/-- the union statement on an instance of each kind -/
+example : ∃ evs t, generate e0 Γw8 {} v3t = .ok evs ∧ eventsTree (isDatatype Γw8) evs = .ok t ∧
+    parseRoot e0 Γw8 {} (s "Root") t = .ok (v3t, 0) :=
+  bind_generate_partial e0 Γw8 {} {} (s "Root") v3t (Or.inr ⟨featF3, by decide, by decide⟩)
+example : ∃ evs t, generate e0 Γ2 {} v2 = .ok evs ∧ eventsTree (isDatatype Γ2) evs = .ok t ∧
+    parseRoot e0 Γ2 {} (s "Root") t = .ok (v2, 0) :=
+  bind_generate_partial e0 Γ2 {} {} (s "Root") v2 (Or.inl ⟨by decide, by decide⟩)
 
 end Props.C01
